@@ -224,11 +224,11 @@ _SMOOTH_RULE = ("smoothing-admissible grids (ntheta in 4,8,...,64 divisible by 4
     "present. Distinct: (dims, geometry, profile, BC, #circles, threads, model/invariant-only, boundary data).")
 
 PROPS["C06"] = dict(
-    harness="c06_smoother", flavour="rel"
-         " Third session: vectors scaled by 2^+-100/2^+-300 in 40% of the cases; one invariant-only case in eight on a grid of 10 000-25 000 nodes (parallel assembly path), there also give == take (1e-4) and multi-threaded == single-threaded objects; a fifth of the cases obtain the sweeps through a Level re-initialised for the other boundary mode.",
+    harness="c06_smoother", flavour="rel",
     quick=dict(workers=16, cases=20000, min_nontrivial=300, budget_s=900),
     thorough=dict(workers=16, cases=100000, min_nontrivial=3000, budget_s=3000),
-    rule="SmootherGive/SmootherTake on " + _SMOOTH_RULE % (2, "and for energy-norm monotonicity"),
+    rule="SmootherGive/SmootherTake on " + _SMOOTH_RULE % (2, "and for energy-norm monotonicity") +
+         " Third session: vectors scaled by 2^+-100/2^+-300 in 40% of the cases; one invariant-only case in eight on a grid of 10 000-25 000 nodes (parallel assembly path), there also give == take (1e-4) and multi-threaded == single-threaded objects; a fifth of the cases obtain the sweeps through a Level re-initialised for the other boundary mode.",
     technique="property-based testing (rapidcheck); model-based oracle (reference zebra relaxation on the probed operator) plus residual, fixed-point and energy-norm invariants",
     level_text="Each generated case runs one real smoothing sweep (both strategies, scratch vector pre-filled with garbage) "
                "and checks: equality with an independent exact zebra line relaxation of the probed operator, zero "
@@ -240,11 +240,11 @@ PROPS["C06"] = dict(
 )
 
 PROPS["C07"] = dict(
-    harness="c07_extrapolated_smoother", flavour="rel"
-         " Third session: as C06 (scaled vectors, grids above 10 000 nodes, re-initialised Level).",
+    harness="c07_extrapolated_smoother", flavour="rel",
     quick=dict(workers=16, cases=20000, min_nontrivial=300, budget_s=900),
     thorough=dict(workers=16, cases=100000, min_nontrivial=3000, budget_s=3000),
-    rule="ExtrapolatedSmootherGive/Take on coarsenable " + _SMOOTH_RULE % (3, "(f := A x for an arbitrary x)"),
+    rule="ExtrapolatedSmootherGive/Take on coarsenable " + _SMOOTH_RULE % (3, "(f := A x for an arbitrary x)") +
+         " Third session: as C06 (scaled vectors, grids above 10 000 nodes, re-initialised Level).",
     technique="property-based testing (rapidcheck); bitwise invariance of coarse nodes, model-based oracle (reference relaxation restricted to fine-only nodes), residual and fixed-point invariants",
     level_text="Each generated case runs one real extrapolated smoothing sweep (both strategies) and checks that every node of "
                "the next coarser grid is returned bit for bit (memcmp), that the result equals an independent zebra "
